@@ -25,6 +25,20 @@ KNOWN_BAD = [
     ("F27-unused-type-parameter", "vz.s27 x:int = vz.S27;\nvz.pair27 {X:Type} {Y:Type} b:Y = vz.Pair27 X Y;\nvz.use27 p:(vz.Pair27 (Maybe vz.s27) vz.s27) = vz.Use27;\n", ["tl2all"]),
     ("F19-empty-struct-under-mask", "vz.obj8 = vz.Obj8;\nvz.useObj8 m:# a:m.1?vz.obj8 = vz.UseObj8;\n", ["tl2all"]),
 ]
+# crafted shapes that SchemaGen does not produce (type-parameter templates used bare / boxed, results across namespaces for the RPC client code);
+# whether the generator accepts each one is its business: accepted => must build, never a panic
+CRAFTED = [
+    ("wrap-bare-param-struct", "vz.s x:int = vz.S;\nvz.wrap {T:Type} x:%T = vz.Wrap T;\nvz.h a:(vz.wrap vz.S) = vz.H;\n"),
+    ("wrap-bare-param-union", "vz.ua x:int = vz.U;\nvz.ub y:string = vz.U;\nvz.wrap {T:Type} x:%T = vz.Wrap T;\nvz.h a:(vz.wrap vz.U) = vz.H;\n"),
+    ("wrap-bare-param-maybe", "vz.wrap {T:Type} x:%T = vz.Wrap T;\nvz.h a:(vz.wrap (Maybe int)) = vz.H;\n"),
+    ("wrap-bare-param-vector", "vz.wrap {T:Type} x:%T = vz.Wrap T;\nvz.h a:(vz.wrap (Vector int)) b:(vz.wrap (vector int)) = vz.H;\n"),
+    ("wrap-boxed-param-union", "vz.ua x:int = vz.U;\nvz.ub y:string = vz.U;\nvz.wrap {T:Type} x:T = vz.Wrap T;\nvz.h a:(vz.wrap vz.U) b:(vz.Wrap vz.U) = vz.H;\n"),
+    ("wrap-two-params", "vz.s x:int = vz.S;\nvz.two {A:Type} {B:Type} a:A b:%B c:(Maybe A) = vz.Two A B;\nvz.h t:(vz.two vz.S vz.S) u:(vz.Two int (Vector vz.S)) = vz.H;\n"),
+    ("wrap-in-function", "vz.ua x:int = vz.U;\nvz.ub y:string = vz.U;\nvz.wrap {T:Type} x:%T = vz.Wrap T;\n---functions---\n@read vz.f a:(vz.wrap vz.U) = vz.Wrap (Maybe int);\n"),
+    ("rpc-result-other-namespace", "vy.res x:int y:int = vy.Res;\nvy.item a:long = vy.Item;\n---functions---\n@read vz.fun key:string = vy.Res;\n@read vz.fun2 key:string n:int = Vector vy.item;\n@write vz.fun3 name:string = vy.Item;\n"),
+    ("rpc-result-other-namespace-with-string", "vy.res x:int s:string = vy.Res;\n---functions---\n@read vz.fun key:string = vy.Res;\n@read vz.fun2 k:int = Vector vy.Res;\n"),
+    ("constructor-in-function-namespace", "vy.res x:int y:int = vy.Res;\nvz.fun key:string = vy.Res;\n"),
+]
 KNOWN_BAD_TL2 = [("F14-bit-array", "x = var:[]bit;\n")]
 
 OPTION_SETS = {
@@ -33,6 +47,7 @@ OPTION_SETS = {
     "split": ["--tl2WhiteList=*", "--split-internal", "--generateRandomCode", "--generateRPCCode"],
     "nosanity-bytes-ns": ["--tl2WhiteList=vz.", "--generateByteVersions=vz.", "--checkLengthSanity=false"],
     "rpc": ["--tl2WhiteList=*", "--generateRPCCode", "--generateRandomCode", "--generateByteVersions=*"],
+    "rpc-bytes-ns": ["--tl2WhiteList=*", "--generateRPCCode", "--generateByteVersions=vz.", "--generateRandomCode"],
     "split-tl2-bytes": ["--tl2WhiteList=*", "--split-internal", "--generateByteVersions=*", "--generateRandomCode"],
 }
 
@@ -95,6 +110,9 @@ def run(ctx):
     repo_sets = [("schema", "split-tl2-bytes"), ("cases", "split-tl2-bytes")] + ([("goldmaster", "split-tl2-bytes"), ("schema", "rpc"), ("cases", "nosanity-bytes-ns")] if thorough else [])
     for setname, optset in repo_sets:
         cases.append(("r%s_%s" % (setname, re.sub(r"\W", "", optset)), {os.path.basename(f): open(os.path.join(ctx.scratch, f)).read() for f in gen.REPO_SETS[setname]}, optset, "repo:" + setname))
+    for ci, (nm, txt) in enumerate(CRAFTED):
+        for optset in (["rpc-bytes-ns", "tl2all"] if not thorough else ["rpc-bytes-ns", "tl2all", "tl1only", "split", "rpc"]):
+            cases.append(("x%d%s" % (ci, re.sub(r"\W", "", optset)), {"s.tl": schemagen.PRELUDE + txt}, optset, "crafted:" + nm))
     for nm, txt in KNOWN_BAD_TL2:
         cases.append(("k" + nm.split("-")[0], {"s.tl2": txt}, "tl2all", "known-bad:" + nm))
     accepted = []
@@ -165,6 +183,7 @@ def run(ctx):
                            (r"cannot use \(\*bool\)", "does-not-build:typedef-of-Bool-tl2"),
                            (r"cannot use v \(variable of type bool\)|as bool value in assignment|cannot use .* \(.*bool\) as", "does-not-build:empty-struct-under-mask"),
                            (r"undefined: BitReadTL1|undefined: BitWriteTL1|BitReadTL1|BitWriteTL1", "does-not-build:tl2-bit-array"),
+                           (r"undefined: \w+Bytes\b", "does-not-build:undefined-bytes-version-type"),
                            (r"internal/tl/tlBuiltinDict\w+/dict_field\.go:\d+:\d+: \"[^\"]+\" imported and not used", "does-not-build:split-internal-dictionary-unused-import")):
                 if any(re.search(pat, l) for l in failed[key]):
                     cls = c
